@@ -92,7 +92,8 @@ func rulesC01(r *Run) {
 	gateRouting(r, "R2", smKey("BlockPreChecks"), smKey("runPreChecks"), []string{"BlockStartContChecks"}, []string{"BlockDeferredChecks"})
 	groupResultReturned(r, "R2", "runPreChecks", 2)
 	ruleRunContextDetached(r, "R2")
-	r.Expect("R2", 7)
+	ruleGroupsRunWhenPendingAll(r, "R2", "PreChecks") // pending pre-checks are always run (mutation sweep)
+	r.Expect("R2", 9)
 
 	// ---- R3: execSeq sequential, ordered, gated
 	r.Kind("R3", "K2")
